@@ -11,7 +11,7 @@ EXTRA_PROPS = [("B3.Props.C06W", "B3/Props/C06W.lean")]   # theorems about the c
 RULE = ("the hook's scripted Join (per split: 0 = left first, 1 = right first, 2 = right half on a new thread) drives "
         "update_with_join on inputs with > simd_degree chunks (and update_mmap_rayon on real files of lengths around the 16 KiB mmap threshold inside pools of 1 and 2..16 threads): all 3^k schedules for inputs with k <= 4 splits (cyclic script), sampled "
         "beyond; update_rayon in pools of 1..16 threads; the C library's BLAKE3_USE_TBB seam implemented by harness/c with the same "
-        "three modes; after the multithreaded update the state is observed through count, finalize, xof, a further single-threaded "
+        "three modes, plus 40 (quick) updates of 1..8 MiB with every join on a real second thread compared with the single-threaded update in the same process; after the multithreaded update the state is observed through count, finalize, xof, a further single-threaded "
         "update and finalize; compared with the model (whose update does not depend on the schedule) and the spec; "
         "non-trivial = input with at least one split; distinct = distinct script")
 ASSUMPTIONS = ["rayon::join / TBB run both closures exactly once; the scripted join of the hook and harness/c stands in for them",
@@ -88,6 +88,55 @@ def rayon_tail_scripts(rng, count):
     return out
 
 
+class TbbConcurrentStage:
+    """blake3_hasher_update_tbb with every join running its right half on a REAL second thread (join script `2`), on inputs of
+    1 .. 8 MiB, repeated; the digest must equal blake3_hasher_update's on the same bytes in the same process (implementation-only
+    comparison: the inputs are too large for the Lean driver; that update = specification is the `c-api` stage of C06 and the theorems).
+    Catches state shared between the two halves of a join that only a truly concurrent schedule exposes."""
+    name = "c-tbb-concurrent"
+
+    def __init__(self, seed, reps):
+        self.seed, self.reps = seed, reps
+
+    def run(self, lean_exe):
+        from .. import core
+        from . import io_gen
+        ok, exe, log = core.build_c()
+        if not ok:
+            return dict(evaluations=0, distinct=set(), hist={}, samples=[], mismatches=[dict(kind="driver-crash", impl_name="c", ops=[], log_tail=log[-2000:])])
+        rng = Rng(self.seed)
+        mism, n, keys = [], 0, set()
+        for i in range(self.reps):
+            size = rng.choice([1 << 20, (1 << 20) + 1025, 3 << 20, (1 << 22) + 5, 1 << 23])
+            feat = rng.choice(["avx512", "avx2", "sse41", "portable"]) if i % 4 == 0 else "avx512"
+            sd = rng.randrange(1 << 32)
+            mode = mode_tok(rng)
+            s = io_gen.IoScript(tags=("tbb-concurrent", feat))
+            s.op(f"C feat {feat}", "ok")
+            s.op(f"C init a {mode}", "ok")
+            s.op(f"C init b {mode}", "ok")
+            s.op(f"C upd a pat {size} {sd}", "ok")
+            s.op(f"C updtbb b 2 pat {size} {sd}")
+            fa, fb = s.op("C fin a 32"), s.op("C fin b 32")
+            xa, xb = s.op("C finseek a 100 70"), s.op("C finseek b 100 70")
+            s.equal += [(fa, fb), (xa, xb)]
+            # the hashers must also be left in the same state: more input, then compare again
+            s.op("C upd a pat 3000 7", "ok")
+            s.op("C upd b pat 3000 7", "ok")
+            ga, gb = s.op("C fin a 32"), s.op("C fin b 32")
+            s.equal.append((ga, gb))
+            rc, outs, err = core.run_driver(exe, list(s), timeout=300)
+            n += len(s)
+            keys.add(s.key())
+            bad = io_gen.check_outputs(s, outs)
+            if len(outs) > 4 and not outs[4].startswith("ok"):
+                bad.append(f"updtbb answered `{outs[4]}`")
+            if bad and len(mism) < 5:
+                mism.append(dict(kind="impl-vs-spec", impl_name="c", ops=list(s), complaints=bad[:5], impl_differs=True,
+                                 note="update_tbb with concurrent joins differs from update on the same bytes (schedule-dependent: repeat the ops)"))
+        return dict(evaluations=n, distinct=keys, hist={"tbb-concurrent": self.reps}, samples=[], mismatches=mism)
+
+
 def stages(tier, seed, witness_search=False):
     rng = Rng(seed)
     k = 60 if tier == "quick" else 1500
@@ -96,11 +145,14 @@ def stages(tier, seed, witness_search=False):
     from . import c11
     return [LineStage("scripted-join+rayon", sched_scripts(rng, tier) + rayon_scripts(rng, k) + rayon_tail_scripts(rng, k), normalize=normalize),
             LineStage("c-tbb-seam", tbb_scripts(rng, k), impl="c", normalize=normalize),
+            TbbConcurrentStage(seed + 9, 40 if tier == "quick" else 600),
             # update_mmap_rayon on real files inside pools of 1 and 2..16 threads, against plain update of the same bytes
             c11.FileStage(seed + 7, fifo=False)]
 
 
 def replay(d, lean_exe):
+    if d.get("stage") == "c-tbb-concurrent":
+        return dict(still_fails=False, note="schedule-dependent: feed `ops` to harness/c/build/cdriver repeatedly")
     if d.get("stage") == "files":
         return dict(still_fails=False, note="file scripts use scratch paths; re-run the check with the same VERIF_SEED")
     if d.get("stage") == "c-tbb-seam":
